@@ -157,3 +157,23 @@ CHECKS = {
    note="Trusted base: numpy array_equal, the C20 model generator, the C02 objective recorder. Fields not persisted by design are not compared. F21 (model class wider than its megacomplexes) attributed only to TypeError from load_model.",
    technique="runtime monitoring: round-trip oracles at the API boundary incl. behavioural identity (recorded objective) of reloaded models; recorders on the serialisation helpers"),
 }
+
+# additions made when independently seeded changes (seeded/INDEX.md) showed a hole in the explored space
+for _k, _extra in {
+    "C01": "Matrices without columns (every clp of an index constrained away) are exercised directly and in situ: empty clp, residual == data.",
+    "C02": "The scheme generator also puts constraints on the source of a relation (both rules hold together) so that indices without any free clp occur.",
+    "C03": "Data arrive in both dimension orders and in C and Fortran memory order.",
+    "C04": "Populations that are not normalised at all (exclude_from_normalize = all) and datasets split into two decay megacomplexes that share one "
+           "initial concentration (a megacomplex then sees a single population != 1) are compared block by block with expm(K_block t) j_block.",
+    "C06": "Families of three megacomplexes that share clp labels and differ in index dependence (pfid always per index, baseline never) are combined in "
+           "every order, scaled and unscaled; oscillation families mix both rate signs.",
+    "C10": "Caller data come in both dimension orders and in C / Fortran memory order (a Fortran-contiguous input may not be aliased and scaled in place).",
+    "C11": "covariance_matrix == pinv(J^T J) of the reported Jacobian in label order, and each free parameter's standard_error is the one of ITS column.",
+    "C14": "One family links three datasets with different scales on partially overlapping axes.",
+    "C15": "The harness scheme carries a fixed AND non-negative (log-transformed) parameter that must come back unchanged from the roll-back.",
+    "C17": "Second generation: the LOADED result is saved to another folder, the first folder is deleted, and the re-loaded result is compared with the original; "
+           "its spec files may not refer outside their folder.",
+    "C18": "Project histories include optimisations whose save fails midway (injected OSError in save_model / save_scheme / write_dict): the partial run folder "
+           "keeps its number and is never written again.",
+}.items():
+    CHECKS[_k]["text"] += " " + _extra
